@@ -5137,7 +5137,14 @@ class _InstancePrivate:
         self.values = {} if values is None else values
 
     def __getstate__(self):
-        return {slot: getattr(self, slot) for slot in self.__slots__}
+        state = {slot: getattr(self, slot) for slot in self.__slots__}
+        # An open batch, a trigger in progress and the queued events and
+        # watchers belong to the operation in progress on this object,
+        # not to a copy of it
+        state['parameters_state'] = {
+            "BATCH_WATCH": False, "TRIGGER": False, "events": [], "watchers": []
+        }
+        return state
 
     def __setstate__(self, state):
         for k, v in state.items():
